@@ -83,11 +83,11 @@ Fixpoint nwc_by_template (ai:arch_info) (tpl:list vstmt) (ncs:list nwc) (es:list
       end
   end.
 
+(** normal form produced by the translator: bindings left out, guard clauses and negated conditions rendered as if/else *)
 Definition expected_names_template : list vstmt :=
-  [VIf VCFound [VLetMasked; VIf VCNoEntry [VAppendUnconditional] [VProblem]] [VProblem]].
+  [VIf VCFound [VIf VCNoEntry [VAppendUnconditional] [VProblem]] [VProblem]].
 Definition expected_nwc_template : list vstmt :=
-  [VIf VCFound [VLetMasked; VLetCheck; VLetInvalid; VIf VCInvalid [VProblem; VContinue] [];
-                VIf VCNoEntry [VLetSingleton; VAppendConditional] [VIf VCEntryUnconditional [VProblem] [VAddAlternative]]] [VProblem]].
+  [VIf VCFound [VIf VCInvalid [VProblem] [VIf VCNoEntry [VAppendConditional] [VIf VCEntryUnconditional [VProblem] [VAddAlternative]]]] [VProblem]].
 
 (** one-step unfolding equations (by computation); normalising [run_v] on a stuck condition would explore every branch *)
 Section Steps.
@@ -132,7 +132,7 @@ Proof.
   induction names as [|name rest IH]; intros es bad; [reflexivity|].
   cbn [names_by_template names_loop]. unfold expected_names_template.
   destruct (lookup_name (ai_table ai) name) as [num|].
-  - cbn [masked_of]. rewrite (v_if _ _ _ _ _ _ _ _ _ _ true) by reflexivity. vstep.
+  - cbn [masked_of]. rewrite (v_if _ _ _ _ _ _ _ _ _ _ true) by reflexivity.
     destruct (get_syscall es (sysnum ai num)) as [e|] eqn:G.
     + rewrite (v_if _ _ _ _ _ _ _ _ _ _ false) by (cbn [vcond_holds]; rewrite G; reflexivity). vstep. apply IH.
     + rewrite (v_if _ _ _ _ _ _ _ _ _ _ true) by (cbn [vcond_holds]; rewrite G; reflexivity). vstep. apply IH.
@@ -145,9 +145,9 @@ Proof.
   induction ncs as [|nc rest IH]; intros es bad; [reflexivity|].
   cbn [nwc_by_template nwc_loop]. unfold expected_nwc_template.
   destruct (lookup_name (ai_table ai) (nc_name nc)) as [num|].
-  - cbn [masked_of]. rewrite (v_if _ _ _ _ _ _ _ _ _ _ true) by reflexivity. vstep.
+  - cbn [masked_of]. rewrite (v_if _ _ _ _ _ _ _ _ _ _ true) by reflexivity.
     destruct (conds_valid (nc_conds nc)) eqn:V; cbn [negb].
-    + rewrite (v_if _ _ _ _ _ _ _ _ _ _ false) by (cbn [vcond_holds]; rewrite V; reflexivity). vstep.
+    + rewrite (v_if _ _ _ _ _ _ _ _ _ _ false) by (cbn [vcond_holds]; rewrite V; reflexivity).
       destruct (get_syscall es (sysnum ai num)) as [[n0|n0 ls0]|] eqn:G.
       * rewrite (v_if _ _ _ _ _ _ _ _ _ _ false) by (cbn [vcond_holds]; rewrite G; reflexivity).
         rewrite (v_if _ _ _ _ _ _ _ _ _ _ true) by (cbn [vcond_holds]; rewrite G; reflexivity). vstep. apply IH.
